@@ -48,6 +48,11 @@ OKRULE = "table(sub) cA > cB; endtable;\n"
 DEEP_LIST = H + "table(glyph) cB = glyphid(7); cA = glyphid(3) {" + "; ".join("q%d = %d" % (i, i % 100) for i in range(70000)) + "}; endtable;\ntable(sub) cA > cB; endtable;\n"
 
 CORPUS = [
+    ("attr-named-x-with-offsets", H + "table(glyph) cA = glyphid(3..6) {x = 7m}; cB = glyphid(7..10); endtable;\ntable(sub) cA > cB; endtable;\n", ["-q", "-offsets", "p.gdl", "in.ttf", "out.ttf"], {}),
+    ("attr-named-xoffset", H + "table(glyph) cA = glyphid(3..6) {xoffset = 7m; yoffset = 2m}; cB = glyphid(7..10); endtable;\ntable(sub) cA > cB; endtable;\n", None, {}),
+    ("attr-named-gpoint-with-offsets", H + "table(glyph) cA = glyphid(3..6) {gpoint = 2}; cB = glyphid(7..10); endtable;\ntable(sub) cA > cB; endtable;\n", ["-q", "-offsets", "p.gdl", "in.ttf", "out.ttf"], {}),
+    ("attr-named-gpath", H + "table(glyph) cA = glyphid(3..6) {gpath = 1}; cB = glyphid(7..10) {pt.gpath = 1}; endtable;\ntable(sub) cA > cB; endtable;\n", None, {}),
+    ("passkeyslot-twice-on-insert", H + G + "table(sub) cA _ > cA cC:1 {passKeySlot = true; passKeySlot = true}; endtable;\n", None, {}),
     # an insertion as the first item of a rule that changes nothing else, in a pass without leading contexts: the pass
     # optimization (default; off with -p) has to find the rule's key slot behind the inserted item
     ("leading-insertion-only-rule", H + "table(glyph) cA = glyphid(3..6); cB = glyphid(7..10); cX = glyphid(11); endtable;\ntable(sub) _ > cX:2 / _ cB ^; endtable;\n", None, {}),
